@@ -501,7 +501,7 @@ theorem keepParams_frame : Frame KeepParams :=
     data := fun _ _ _ h => ⟨data_maxRemote h, data_localTimeout h, data_remoteTimeout h⟩ }
 
 theorem step_keepParams (n : Net) (op : Op) : Net.Rel KeepParams n (step n op).1 := by
-  refine keepParams_frame.step n op (fun _ _ _ => ⟨rfl, rfl, rfl⟩) (fun _ _ _ => ⟨rfl, rfl, rfl⟩) (fun _ _ _ _ => ⟨rfl, rfl, rfl⟩)
+  refine keepParams_frame.step n op (fun _ _ _ => ⟨rfl, rfl, rfl⟩) (fun _ _ _ _ => ⟨rfl, rfl, rfl⟩) (fun _ _ _ _ => ⟨rfl, rfl, rfl⟩)
     (fun _ _ _ => ⟨rfl, rfl, rfl⟩) (fun _ _ _ => ⟨rfl, rfl, rfl⟩) (fun _ _ _ => ⟨rfl, rfl, rfl⟩) ?_ ?_
   · intro _ a k; unfold Node.localExec Node.exec
     split
@@ -551,6 +551,128 @@ theorem C16_limit_boundary (n : Net) (x y : Nat) (u p : String) (b : Node) (hb :
   rcases opRemoteLogin_cases n x y u p with ⟨h0, h1⟩ | ⟨_, b', _, _, _, hb', _, hlt, _⟩
   · exact ⟨h1, h0⟩
   · rw [hb] at hb'; cases hb'; omega
+
+
+/-! ### the last enabled administrator -/
+
+def User.enabledAdmin (w : User) : Bool := w.admin && !w.disabled
+
+/-- `len(self.admins)` -/
+def adminCount (l : List User) : Nat := (l.filter (fun v => v.admin && !v.disabled)).length
+
+theorem adminCount_cons (v : User) (t : List User) :
+    adminCount (v :: t) = (if v.enabledAdmin then 1 else 0) + adminCount t := by
+  unfold adminCount User.enabledAdmin
+  rw [List.filter_cons]
+  split
+  · rw [List.length_cons]; omega
+  · omega
+
+theorem updUser_disable_count (l : List User) (u : String) (w : User) (h : l.find? (fun v => v.name == u) = some w) :
+    adminCount (updUser l u (fun v => { v with disabled := true })) + (if w.enabledAdmin then 1 else 0) = adminCount l := by
+  induction l with
+  | nil => simp at h
+  | cons v t ih =>
+    unfold updUser
+    by_cases hv : (v.name == u) = true
+    · simp only [List.find?_cons, hv, Option.some.injEq] at h
+      subst h
+      rw [if_pos hv, adminCount_cons, adminCount_cons]
+      have : ({ v with disabled := true } : User).enabledAdmin = false := by simp [User.enabledAdmin]
+      rw [this]
+      simp only [Bool.false_eq_true, if_false]
+      omega
+    · simp only [List.find?_cons, hv] at h
+      have := ih h
+      rw [if_neg hv, adminCount_cons, adminCount_cons]
+      omega
+
+theorem updUser_password_count (l : List User) (u new : String) :
+    adminCount (updUser l u (fun v => { v with password := new })) = adminCount l := by
+  induction l with
+  | nil => rfl
+  | cons v t ih =>
+    unfold updUser
+    split
+    · rw [adminCount_cons, adminCount_cons]
+      have : ({ v with password := new } : User).enabledAdmin = v.enabledAdmin := rfl
+      rw [this]
+    · rw [adminCount_cons, adminCount_cons, ih]
+
+/-- the number of enabled admins does not drop -/
+def AdminMono : Nat → Node → Node → Prop := fun _ a b => adminCount a.users ≤ adminCount b.users
+
+theorem adminMono_frame : Frame AdminMono :=
+  { refl := fun _ _ => Nat.le_refl _, trans := fun _ _ _ _ h1 h2 => Nat.le_trans h1 h2,
+    shr := fun _ _ _ h => by unfold AdminMono; rw [h.users]; exact Nat.le_refl _,
+    data := fun _ _ _ h => by unfold AdminMono; rw [data_users h]; exact Nat.le_refl _ }
+
+theorem exec_users (a : Node) (k : Nat) : (a.exec k).1.users = a.users := by
+  unfold Node.exec; split <;> rfl
+
+/-- every node keeps at least one enabled administrator -/
+def AdminRemains (n : Net) : Prop := ∀ y b, n.node y = some b → 0 < adminCount b.users
+
+/-- **C16, last admin (one step).** -/
+theorem C16_last_admin_step (n : Net) (op : Op) (h : AdminRemains n) : AdminRemains (step n op).1 := by
+  have key : Net.Rel (fun _ a b => 0 < adminCount a.users → 0 < adminCount b.users) n (step n op).1 := by
+    by_cases hop : ∃ y u, op = .disableUser y u
+    · obtain ⟨y, u, rfl⟩ := hop
+      simp only [step]
+      rcases opDisableUser_cases n y u with h0 | ⟨nd, w, hnd, _, _, hw, hdis, hlast, h0⟩ <;> rw [h0]
+      · exact Net.Rel.refl (fun _ _ h => h) n
+      · refine rel_upd n y _ (fun _ _ h => h) (fun a ha hpos => ?_)
+        rw [hnd] at ha; cases ha
+        have hc := updUser_disable_count nd.users u w hw
+        show 0 < adminCount (updUser nd.users u _)
+        unfold Node.isLastAdmin at hlast
+        by_cases hea : w.enabledAdmin = true
+        · have hadm : w.admin = true := by unfold User.enabledAdmin at hea; simp at hea; exact hea.1
+          simp only [hadm, Bool.true_and, beq_eq_false_iff_ne, ne_eq] at hlast
+          simp only [hea, if_true] at hc
+          unfold adminCount at hc hpos ⊢
+          omega
+        · simp only [hea, if_false, Bool.false_eq_true] at hc
+          omega
+    · refine (adminMono_frame.step n op ?_ ?_ ?_ (fun _ _ _ => Nat.le_refl _) (fun _ _ _ => Nat.le_refl _)
+        (fun _ _ _ => Nat.le_refl _) ?_ ?_).mono (fun _ a b hab hpos => Nat.lt_of_lt_of_le hpos hab)
+      · intro _ a w
+        show adminCount a.users ≤ adminCount (a.users ++ [w])
+        unfold adminCount; rw [List.filter_append, List.length_append]; omega
+      · intro y u hx; exact (hop ⟨y, u, hx⟩).elim
+      · intro _ a u p
+        show adminCount a.users ≤ adminCount (updUser a.users u _)
+        rw [updUser_password_count]; exact Nat.le_refl _
+      · intro _ a k
+        show adminCount a.users ≤ adminCount (a.localExec k).users
+        unfold Node.localExec; split
+        · rw [exec_users]; exact Nat.le_refl _
+        · exact Nat.le_refl _
+      · intro _ a cid t k
+        show adminCount a.users ≤ adminCount (a.remoteExec cid t k).users
+        unfold Node.remoteExec; rw [exec_users]; exact Nat.le_refl _
+  intro y a ha
+  obtain ⟨b, hb, hab⟩ := Net.Rel.back_of_len key ha
+  exact hab (h y b hb)
+
+/-- **C16, last admin.** Over every operation sequence, every node keeps an enabled administrator account
+(`disable_user` on the only enabled admin is refused; nothing else disables or removes accounts). -/
+theorem C16_last_admin (ops : List Op) (n : Net) (h : AdminRemains n) : AdminRemains (run n ops) := by
+  induction ops generalizing n with
+  | nil => exact h
+  | cons op ops ih => exact ih _ (C16_last_admin_step n op h)
+
+/-- the refusal itself: disabling the only enabled admin answers `failure` and changes nothing -/
+theorem C16_last_admin_refused (n : Net) (y : Nat) (u : String) (b : Node) (w : User) (hb : n.node y = some b)
+    (hw : b.findUser u = some w) (hadm : w.admin = true) (hone : adminCount b.users = 1) :
+    (step n (.disableUser y u)).1 = n := by
+  simp only [step]
+  rcases opDisableUser_cases n y u with h0 | ⟨nd, w', hnd, _, _, hw', _, hlast, _⟩
+  · exact h0
+  · rw [hb] at hnd; cases hnd; rw [hw] at hw'; cases hw'
+    unfold Node.isLastAdmin at hlast
+    unfold adminCount at hone
+    simp [hadm, hone] at hlast
 
 
 end Primaite.Session
